@@ -269,6 +269,16 @@ func writeNativeOverlay(eng *Engine, outDir string) (string, error) {
 	pkgName := map[string]string{}
 	pkgRe := regexp.MustCompile(`(?m)^package (\w+)`)
 	for virt, real := range eng.overlayFiles {
+		if strings.HasPrefix(real, "cut:") {
+			// transformed copy of a /repo file
+			rel, _ := filepath.Rel(eng.repo, virt)
+			real = filepath.Join(outDir, "cut_"+strings.ReplaceAll(rel, "/", "_"))
+			if err := os.WriteFile(real, eng.overlay[virt], 0644); err != nil {
+				return "", err
+			}
+			replace[virt] = real
+			continue
+		}
 		replace[virt] = real
 		if strings.Contains(virt, "/internal/vp/") {
 			continue
@@ -767,11 +777,16 @@ func cmdCheck(repo, verif, prop, tier, only string) int {
 		"float_mode=real treats float64 as mathematical reals (no rounding/overflow/NaN); float_mode=fp is bit-precise IEEE-754",
 		"paths that end in fp-exception (division by zero, sqrt of a negative) or assume-false are outside the claim",
 		"one deterministic goroutine schedule per path (cooperative round-robin); map iteration in insertion order unless a harness asks for nondeterministic order",
-		"package initialisers of the module run once concretely; initialisers outside the module are skipped",
+		"package initialisers of the module (and of image, image/color) run once concretely; other initialisers outside the module are skipped",
 		"solver: z3 5.1.0 (z3-new -in, persistent, push/pop), except harnesses whose spec says solver=z3 (z3 4.8.12, /usr/bin/z3: several times faster on the bit-precise FP add/mul queries of those harnesses); any (error line or unknown answer makes the run inconclusive (exit 3), never a pass",
 	)
 	for _, s := range stubs {
 		assumptions = append(assumptions, "model/stub used: "+s)
+	}
+	if cuts, _ := loadCuts(verif); len(cuts) > 0 {
+		for _, c := range cuts {
+			assumptions = append(assumptions, fmt.Sprintf("source cut applied to the current %s on every run (symbolic run and native replay): %q -> %q: %s", c.File, c.Old, c.New, c.Why))
+		}
 	}
 	if states == 0 {
 		states = 0
